@@ -22,7 +22,7 @@ func init() {
 			{Pkg: "wire", Entry: "VerifH10i", What: "an oversized message (body made of well-formed messages, one of them a Query) arriving while a handler reads COPY data: skipped in full, nothing of it taken for a message, the COPY aborted with exactly one ErrorResponse and one ReadyForQuery, the query after it served",
 				Quick: map[string]int{}, Witnesses: []string{"oversized-copydata", "query-inside-the-oversized-body"}},
 			{Pkg: "wire", Entry: "VerifH13d", What: "binary COPY read through the library's row reader: whether the COPY ended well is decided by CopyDone / CopyFail / a non-COPY message, also when the data already carried its end-of-data trailer",
-				Quick: map[string]int{"TUPLES": 2}, Witnesses: []string{"completed", "copyfail-after-trailer"}},
+				Quick: map[string]int{"TUPLES": 2}, Witnesses: []string{"completed", "copyfail-after-trailer", "copy-ended-before-any-copydata"}},
 			{Pkg: "wire", Entry: "VerifH13e", What: "COPY-in started through Parse/Bind/Execute with any admissible Bind result-format codes: the CopyInResponse announces the handler's requested format overall and per column, payloads in order, one CommandComplete or ErrorResponse and one ReadyForQuery at Sync",
 				Quick: map[string]int{"K": 2}, Witnesses: []string{"bind-result-formats-differ-from-the-copy-format", "extended-copy-aborted", "extended-copy-completed"}},
 		},
